@@ -1,0 +1,44 @@
+//! Verification hooks, compiled only with `--cfg chalk_verif`.
+
+use std::cell::RefCell;
+
+/// What `Drop for SolveState` saw when a search was abandoned with a
+/// non-empty stack.
+#[derive(Clone, Copy, Debug, PartialEq, Eq)]
+pub struct UnwindEvent {
+    /// The drop ran because of a panic.
+    pub panicking: bool,
+    /// The top stack entry still held its active strand (and so the
+    /// strand was put back into its table).
+    pub top_strand_restored: bool,
+}
+
+thread_local! {
+    static UNWIND_LOG: RefCell<Vec<UnwindEvent>> = const { RefCell::new(Vec::new()) };
+}
+
+pub(crate) fn note_unwind(panicking: bool, top_strand_restored: bool) {
+    UNWIND_LOG.with(|l| {
+        l.borrow_mut().push(UnwindEvent {
+            panicking,
+            top_strand_restored,
+        })
+    });
+}
+
+/// Returns and clears the unwind events recorded on this thread.
+pub fn take_unwind_log() -> Vec<UnwindEvent> {
+    UNWIND_LOG.with(|l| std::mem::take(&mut *l.borrow_mut()))
+}
+
+/// Summary of one table of an SLG forest.
+#[derive(Clone, Debug)]
+pub struct TableDump {
+    pub goal: String,
+    pub coinductive: bool,
+    pub floundered: bool,
+    pub answers: usize,
+    pub ambiguous_answers: usize,
+    pub answers_with_delayed_subgoals: usize,
+    pub strands: usize,
+}
